@@ -38,6 +38,18 @@ struct ElixirUser {
     nick: Option<String>,
 }
 
+/// Elixir-style derived struct whose fields are words Rust reserves (the only way to have a field `:type`), holding
+/// other derived structs.
+#[derive(Debug, Clone, PartialEq, ElixirStruct)]
+#[elixir_module = "Verif.Event"]
+struct ElixirEvent {
+    r#type: String,
+    r#ref: u64,
+    r#match: Option<bool>,
+    user: ElixirUser,
+    others: Vec<ElixirUser>,
+}
+
 #[derive(Debug, Clone, PartialEq, Serialize, Deserialize)]
 enum Shape {
     Empty,
@@ -466,6 +478,8 @@ pub fn run(ctx: &Ctx) {
             nick: if rng.bool() { Some(gen_string(&mut rng)) } else { None },
         };
         rt(ctx, &format!("ElixirStruct/age-{}/score-{}", width_class_i(u.age as i128), width_class_i(u.score as i128)), &u);
+        let ev = ElixirEvent { r#type: gen_string(&mut rng), r#ref: gen_u64(&mut rng), r#match: *rng.pick(&[None, Some(true), Some(false)]), user: u.clone(), others: if rng.bool() { vec![u.clone()] } else { vec![] } };
+        rt(ctx, "ElixirStruct/raw-identifier-fields/nested", &ev);
         let sh = gen_shape(&mut rng);
         let lbl = match &sh {
             Shape::Empty => "enum/unit".to_string(),
